@@ -168,4 +168,980 @@ theorem removeUncovered_spec {q : IQ} {i : Nat} {x : Loc} (hinv : q.Inv) (hi : i
   · intro k hk
     rw [hpre2 k (by omega), hpre1 k hk]
 
+/-! ### `position` versus `find?` / `eraseFirst` / `updFirst` -/
+
+theorem findIdx?_none_find {p : Loc → Bool} {l : List Loc} (h : l.findIdx? p = none) :
+    l.find? p = none := by
+  induction l with
+  | nil => rfl
+  | cons y ys ih =>
+    rw [List.findIdx?_cons] at h
+    by_cases hy : p y = true
+    · simp [hy] at h
+    · simp only [hy, Bool.false_eq_true, if_false, Option.map_eq_none_iff] at h
+      simp [hy, ih h]
+
+theorem findIdx?_some_spec {p : Loc → Bool} (f : Loc → Loc) {l : List Loc} {i : Nat}
+    (h : l.findIdx? p = some i) :
+    ∃ e, l[i]? = some e ∧ l.find? p = some e ∧ updFirst p f l = l.set i (f e) := by
+  induction l generalizing i with
+  | nil => simp at h
+  | cons y ys ih =>
+    rw [List.findIdx?_cons] at h
+    by_cases hy : p y = true
+    · simp [hy] at h; subst h
+      exact ⟨y, rfl, by simp [hy], by simp [updFirst, hy]⟩
+    · simp [hy] at h
+      obtain ⟨j, hj, rfl⟩ := h
+      obtain ⟨e, h1, h2, h3⟩ := ih hj
+      exact ⟨e, by simpa using h1, by simp [hy, h2], by simp [updFirst, hy, h3]⟩
+
+theorem eraseFirst_perm {p : Loc → Bool} {l : List Loc} {e : Loc} (h : l.find? p = some e) :
+    l.Perm (e :: eraseFirst p l) := by
+  induction l with
+  | nil => simp at h
+  | cons y ys ih =>
+    by_cases hy : p y = true
+    · simp [hy] at h; subst h
+      simp [eraseFirst, hy]
+    · simp [hy] at h
+      simp only [eraseFirst, hy]
+      exact ((ih h).cons y).trans (List.Perm.swap ..)
+
+theorem updFirst_perm {p : Loc → Bool} (f : Loc → Loc) {l : List Loc} {e : Loc}
+    (h : l.find? p = some e) : (updFirst p f l).Perm (f e :: eraseFirst p l) := by
+  induction l with
+  | nil => simp at h
+  | cons y ys ih =>
+    by_cases hy : p y = true
+    · simp [hy] at h; subst h
+      simp [eraseFirst, updFirst, hy]
+    · simp [hy] at h
+      simp only [eraseFirst, updFirst, hy]
+      exact ((ih h).cons y).trans (List.Perm.swap ..)
+
+/-! ### abstraction to the two-list model -/
+
+def IQ.abs (q : IQ) : Queue := ⟨q.U, q.C⟩
+
+/-- same two multisets -/
+def Queue.Equiv (a b : Queue) : Prop := a.unc.Perm b.unc ∧ a.cov.Perm b.cov
+
+theorem Queue.Equiv.refl (a : Queue) : a.Equiv a := ⟨.refl _, .refl _⟩
+theorem Queue.Equiv.trans {a b c : Queue} (h1 : a.Equiv b) (h2 : b.Equiv c) : a.Equiv c :=
+  ⟨h1.1.trans h2.1, h1.2.trans h2.2⟩
+theorem Queue.Equiv.symm {a b : Queue} (h1 : a.Equiv b) : b.Equiv a := ⟨h1.1.symm, h1.2.symm⟩
+
+theorem IQ.entries_eq (q : IQ) : q.entries = q.U ++ q.C := (List.take_append_drop _ _).symm
+
+theorem IQ.U_length {q : IQ} (h : q.Inv) : q.U.length = q.part := by
+  simp only [IQ.U, List.length_take]; unfold IQ.Inv at h; omega
+
+theorem IQ.getElem?_lt {q : IQ} {i : Nat} (hi : i < q.part) : q.entries[i]? = q.U[i]? := by
+  simp [IQ.U, hi]
+
+theorem IQ.getElem?_ge {q : IQ} (k : Nat) : q.entries[k + q.part]? = q.C[k]? := by
+  simp [IQ.C, Nat.add_comm]
+
+theorem IQ.set_lt {q : IQ} {i : Nat} (hi : i < q.part) (a : Loc) :
+    IQ.U ⟨q.entries.set i a, q.part⟩ = q.U.set i a ∧ IQ.C ⟨q.entries.set i a, q.part⟩ = q.C := by
+  simp [IQ.U, IQ.C, List.take_set, List.drop_set, hi]
+
+theorem IQ.set_ge {q : IQ} (k : Nat) (a : Loc) :
+    IQ.U ⟨q.entries.set (k + q.part) a, q.part⟩ = q.U ∧
+    IQ.C ⟨q.entries.set (k + q.part) a, q.part⟩ = q.C.set k a := by
+  constructor
+  · simp only [IQ.U, List.take_set]
+    apply List.set_eq_of_length_le
+    simp only [List.length_take]; omega
+  · simp only [IQ.C, List.drop_set]
+    rw [if_neg (by omega)]; simp
+
+theorem findIdx?_lt {p : Loc → Bool} {l : List Loc} {i : Nat} (h : l.findIdx? p = some i) :
+    i < l.length := by
+  obtain ⟨e, h1, _⟩ := findIdx?_some_spec id h
+  grind
+
+theorem fixFlag_ft (q : IQ) (i : Nat) : q.fixFlag i false true = q.moveToCovered i := rfl
+theorem fixFlag_tf (q : IQ) (i : Nat) : q.fixFlag i true false = q.moveToUncovered i := rfl
+theorem fixFlag_same (q : IQ) (i : Nat) (b : Bool) : q.fixFlag i b b = .ok q := by cases b <;> rfl
+
+theorem IQ.append_view {q : IQ} (h : q.Inv) (a : Loc) :
+    IQ.U ⟨q.entries ++ [a], q.part⟩ = q.U ∧ IQ.C ⟨q.entries ++ [a], q.part⟩ = q.C ++ [a] := by
+  unfold IQ.Inv at h
+  simp [IQ.U, IQ.C, List.take_append_of_le_length h, List.drop_append_of_le_length h]
+
+/-- moving entry `i` across the boundary to the covered side -/
+theorem toCov_equiv {q : IQ} {i : Nat} {x : Loc} {R : List Loc} (hinv : q.Inv) (hi : i < q.part)
+    (hx : q.entries[i]? = some x) (hR : q.U.Perm (x :: R)) :
+    ∃ q', q.moveToCovered i = .ok q' ∧ q'.Inv ∧ q'.entries.length = q.entries.length ∧
+      q'.abs.Equiv ⟨R, q.C ++ [x]⟩ := by
+  obtain ⟨q', h, hp, hl, hu, hc, _⟩ := moveToCovered_spec hinv hi hx
+  refine ⟨q', h, ?_, hl, ?_, ?_⟩
+  · unfold IQ.Inv at *; omega
+  · exact (((List.perm_append_singleton x _).symm.trans hu).trans hR).cons_inv
+  · simp only [IQ.abs]; rw [hc]; exact (List.perm_append_singleton _ _).symm
+
+/-- moving entry `i` across the boundary to the uncovered side -/
+theorem toUnc_equiv {q : IQ} {i : Nat} {x : Loc} {R : List Loc} (hinv : q.Inv) (hi : q.part ≤ i)
+    (hx : q.entries[i]? = some x) (hb : q.entries.length ≤ usizeMax) (hR : q.C.Perm (x :: R)) :
+    ∃ q', q.moveToUncovered i = .ok q' ∧ q'.Inv ∧ q'.entries.length = q.entries.length ∧
+      q'.abs.Equiv ⟨q.U ++ [x], R⟩ := by
+  obtain ⟨q', h, hp, hl, hu, hc, _⟩ := moveToUncovered_spec hinv hi hx hb
+  have : i < q.entries.length := by grind
+  refine ⟨q', h, ?_, hl, ?_, ?_⟩
+  · unfold IQ.Inv at *; omega
+  · simp only [IQ.abs]; rw [hu]
+  · exact (hc.trans hR).cons_inv
+
+theorem pushCovered_abs {q : IQ} (hinv : q.Inv) (hb : q.entries.length < usizeMax)
+    (loc : Loc) (c : Bool) :
+    ∃ q', q.pushCovered loc c = .ok q' ∧ q'.Inv ∧ q'.entries.length ≤ q.entries.length + 1 ∧
+      q'.abs.Equiv (q.abs.pushCovered loc c) := by
+  have hUl := IQ.U_length hinv
+  have hfi : q.entries.findIdx? (sameSeg loc.seg) = (q.U.findIdx? (sameSeg loc.seg)).or
+      ((q.C.findIdx? (sameSeg loc.seg)).map (· + q.part)) := by
+    conv => lhs; rw [q.entries_eq]
+    rw [List.findIdx?_append, hUl]
+  have hlen : q.part ≤ q.entries.length := hinv
+  cases hU : q.U.findIdx? (sameSeg loc.seg) with
+  | some i =>
+    have hi : i < q.part := hUl ▸ findIdx?_lt hU
+    obtain ⟨e, he1, he2, he3⟩ := findIdx?_some_spec (fun x => ⟨loc.mc, x.seg⟩) hU
+    have hei : q.entries[i]? = some e := (IQ.getElem?_lt hi).trans he1
+    have hfE : q.entries.findIdx? (sameSeg loc.seg) = some i := by rw [hfi, hU]; rfl
+    have hwas : decide (q.part ≤ i) = false := by simp; omega
+    simp only [IQ.pushCovered, Queue.pushCovered, hfE, hei, hwas, IQ.abs, he2]
+    by_cases hgt : loc.mc > e.mc
+    · simp only [hgt, if_true]
+      cases c with
+      | false => 
+        simp only [fixFlag_same, Bool.false_eq_true, if_false]
+        refine ⟨_, rfl, ?_, ?_, ?_⟩
+        · simp only [IQ.Inv, List.length_set]; exact hinv
+        · simp
+        · have := IQ.set_lt hi (⟨loc.mc, e.seg⟩ : Loc)
+          simp only [this.1, this.2, he3]
+          exact Queue.Equiv.refl _
+      | true =>
+        simp only [fixFlag_ft, if_true]
+        have hs := IQ.set_lt hi (⟨loc.mc, e.seg⟩ : Loc)
+        have hinv1 : IQ.Inv ⟨q.entries.set i ⟨loc.mc, e.seg⟩, q.part⟩ := by
+          simp only [IQ.Inv, List.length_set]; exact hinv
+        obtain ⟨q', h1, h2, h3, h4⟩ := toCov_equiv (q := ⟨q.entries.set i ⟨loc.mc, e.seg⟩, q.part⟩)
+          (i := i) (x := ⟨loc.mc, e.seg⟩) (R := eraseFirst (sameSeg loc.seg) q.U) hinv1 hi
+          (by simp only [List.getElem?_set_self (show i < q.entries.length by omega)])
+          (by rw [hs.1, ← he3]; exact updFirst_perm _ he2)
+        refine ⟨q', h1, h2, by rw [h3]; simp, ?_⟩
+        rw [hs.2] at h4; exact h4
+    · simp only [hgt, if_false]
+      by_cases heq : loc.mc = e.mc
+      · simp only [heq, beq_self_eq_true, if_true, Bool.false_or]
+        cases c with
+        | false =>
+          simp only [fixFlag_same, Bool.false_eq_true, if_false]
+          exact ⟨q, rfl, hinv, by omega, Queue.Equiv.refl _⟩
+        | true =>
+          simp only [fixFlag_ft, if_true]
+          obtain ⟨q', h1, h2, h3, h4⟩ := toCov_equiv hinv hi hei (eraseFirst_perm he2)
+          exact ⟨q', h1, h2, by omega, h4⟩
+      · have : (loc.mc == e.mc) = false := by simpa using heq
+        simp only [this, Bool.false_eq_true, if_false]
+        exact ⟨q, rfl, hinv, by omega, Queue.Equiv.refl _⟩
+  | none =>
+    have hUn := findIdx?_none_find hU
+    cases hC : q.C.findIdx? (sameSeg loc.seg) with
+    | some k =>
+      obtain ⟨e, he1, he2, he3⟩ := findIdx?_some_spec (fun x => ⟨loc.mc, x.seg⟩) hC
+      have hei : q.entries[k + q.part]? = some e := (IQ.getElem?_ge k).trans he1
+      have hfE : q.entries.findIdx? (sameSeg loc.seg) = some (k + q.part) := by
+        rw [hfi, hU, hC]; rfl
+      have hwas : decide (q.part ≤ k + q.part) = true := by simp
+      have hkl : k + q.part < q.entries.length := by grind
+      simp only [IQ.pushCovered, Queue.pushCovered, hfE, hei, hwas, IQ.abs, hUn, he2]
+      by_cases hgt : loc.mc > e.mc
+      · simp only [hgt, if_true]
+        have hs := IQ.set_ge (q := q) k (⟨loc.mc, e.seg⟩ : Loc)
+        have hinv1 : IQ.Inv ⟨q.entries.set (k + q.part) ⟨loc.mc, e.seg⟩, q.part⟩ := by
+          simp only [IQ.Inv, List.length_set]; exact hinv
+        cases c with
+        | true =>
+          simp only [fixFlag_same, if_true]
+          refine ⟨_, rfl, hinv1, by simp, ?_⟩
+          simp only [hs.1, hs.2, he3]
+          exact Queue.Equiv.refl _
+        | false =>
+          simp only [fixFlag_tf, Bool.false_eq_true, if_false]
+          obtain ⟨q', h1, h2, h3, h4⟩ := toUnc_equiv
+            (q := ⟨q.entries.set (k + q.part) ⟨loc.mc, e.seg⟩, q.part⟩)
+            (i := k + q.part) (x := ⟨loc.mc, e.seg⟩) (R := eraseFirst (sameSeg loc.seg) q.C) hinv1
+            (by simp) (by simp only [List.getElem?_set_self hkl])
+            (by simp only [List.length_set]; omega)
+            (by rw [hs.2, ← he3]; exact updFirst_perm _ he2)
+          refine ⟨q', h1, h2, by rw [h3]; simp, ?_⟩
+          rw [hs.1] at h4; exact h4
+      · simp only [hgt, if_false]
+        refine ⟨q, ?_, hinv, by omega, Queue.Equiv.refl _⟩
+        by_cases heq : loc.mc = e.mc
+        · simp [heq, fixFlag_same]
+        · have : (loc.mc == e.mc) = false := by simpa using heq
+          simp [this]
+    | none =>
+      have hCn := findIdx?_none_find hC
+      have hfE : q.entries.findIdx? (sameSeg loc.seg) = none := by rw [hfi, hU, hC]; rfl
+      simp only [IQ.pushCovered, Queue.pushCovered, hfE, IQ.abs, hUn, hCn]
+      have hv := IQ.append_view hinv loc
+      have hinv1 : IQ.Inv ⟨q.entries ++ [loc], q.part⟩ := by
+        simp only [IQ.Inv, List.length_append, List.length_singleton]; omega
+      cases c with
+      | true =>
+        simp only [if_true]
+        refine ⟨_, rfl, hinv1, by simp, ?_⟩
+        simp only [hv.1, hv.2]; exact Queue.Equiv.refl _
+      | false =>
+        simp only [Bool.false_eq_true, if_false, IQ.swapInLast, List.length_append,
+          List.length_singleton, checkedSub_ok (show 1 ≤ q.entries.length + 1 by omega),
+          Nat.add_sub_cancel]
+        obtain ⟨q', h1, h2, h3, h4⟩ := toUnc_equiv (q := ⟨q.entries ++ [loc], q.part⟩)
+          (i := q.entries.length) (x := loc) (R := q.C) hinv1 hlen (by simp)
+          (by simp only [List.length_append, List.length_singleton]; omega)
+          (by rw [hv.2]; exact List.perm_append_singleton _ _)
+        refine ⟨q', h1, h2, by rw [h3]; simp, ?_⟩
+        rw [hv.1] at h4; exact h4
+
+theorem pushDuplicate_abs {q : IQ} (hinv : q.Inv) (hb : q.entries.length < usizeMax) (loc : Loc) :
+    ∃ q', q.pushDuplicate loc = .ok q' ∧ q'.Inv ∧ q'.entries.length = q.entries.length + 1 ∧
+      q'.abs.Equiv (q.abs.pushDuplicate loc) := by
+  have hlen : q.part ≤ q.entries.length := hinv
+  have hv := IQ.append_view hinv loc
+  have hinv1 : IQ.Inv ⟨q.entries ++ [loc], q.part⟩ := by
+    simp only [IQ.Inv, List.length_append, List.length_singleton]; omega
+  simp only [IQ.pushDuplicate, Queue.pushDuplicate, IQ.swapInLast, List.length_append,
+    List.length_singleton, checkedSub_ok (show 1 ≤ q.entries.length + 1 by omega),
+    Nat.add_sub_cancel, IQ.abs]
+  obtain ⟨q', h1, h2, h3, h4⟩ := toUnc_equiv (q := ⟨q.entries ++ [loc], q.part⟩)
+    (i := q.entries.length) (x := loc) (R := q.C) hinv1 hlen (by simp)
+    (by simp only [List.length_append, List.length_singleton]; omega)
+    (by rw [hv.2]; exact List.perm_append_singleton _ _)
+  refine ⟨q', h1, h2, by rw [h3]; simp, ?_⟩
+  rw [hv.1] at h4; exact h4
+
+theorem coverUpTo_abs {q : IQ} (hinv : q.Inv) (s cmc lmc : Nat) (hl : lmc ≤ u64Max) :
+    ∃ q', q.coverUpTo s cmc lmc = .ok q' ∧ q'.Inv ∧ q'.entries.length = q.entries.length ∧
+      q'.abs.Equiv (q.abs.coverUpTo s cmc lmc) := by
+  have hUl := IQ.U_length hinv
+  have hfi : q.entries.findIdx? (sameSeg s) = (q.U.findIdx? (sameSeg s)).or
+      ((q.C.findIdx? (sameSeg s)).map (· + q.part)) := by
+    conv => lhs; rw [q.entries_eq]
+    rw [List.findIdx?_append, hUl]
+  cases hU : q.U.findIdx? (sameSeg s) with
+  | some i =>
+    have hi : i < q.part := hUl ▸ findIdx?_lt hU
+    obtain ⟨e, he1, he2, he3⟩ := findIdx?_some_spec (fun x => ⟨cmc + 1, x.seg⟩) hU
+    have hei : q.entries[i]? = some e := (IQ.getElem?_lt hi).trans he1
+    have hfE : q.entries.findIdx? (sameSeg s) = some i := by rw [hfi, hU]; rfl
+    have hwas : ¬ q.part ≤ i := by omega
+    simp only [IQ.coverUpTo, Queue.coverUpTo, hfE, hei, hwas, IQ.abs, he2, if_false]
+    by_cases h1 : cmc ≥ lmc
+    · simp only [h1, if_true]
+      obtain ⟨q', h1, h2, h3, h4⟩ := toCov_equiv hinv hi hei (eraseFirst_perm he2)
+      exact ⟨q', h1, h2, h3, h4⟩
+    · simp only [h1, if_false]
+      by_cases h2 : cmc ≥ e.mc
+      · simp only [h2, if_true, checkedAdd_ok (show cmc + 1 ≤ u64Max by omega)]
+        refine ⟨_, rfl, ?_, by simp, ?_⟩
+        · simp only [IQ.Inv, List.length_set]; exact hinv
+        · have := IQ.set_lt hi (⟨cmc + 1, e.seg⟩ : Loc)
+          simp only [this.1, this.2, he3]
+          exact Queue.Equiv.refl _
+      · simp only [h2, if_false]
+        exact ⟨q, rfl, hinv, rfl, Queue.Equiv.refl _⟩
+  | none =>
+    have hUn := findIdx?_none_find hU
+    cases hC : q.C.findIdx? (sameSeg s) with
+    | some k =>
+      have hfE : q.entries.findIdx? (sameSeg s) = some (k + q.part) := by
+        rw [hfi, hU, hC]; rfl
+      simp only [IQ.coverUpTo, Queue.coverUpTo, hfE, IQ.abs, hUn,
+        show q.part ≤ k + q.part by omega, if_true]
+      exact ⟨q, rfl, hinv, rfl, Queue.Equiv.refl _⟩
+    | none =>
+      have hfE : q.entries.findIdx? (sameSeg s) = none := by rw [hfi, hU, hC]; rfl
+      simp only [IQ.coverUpTo, Queue.coverUpTo, hfE, IQ.abs, hUn]
+      exact ⟨q, rfl, hinv, rfl, Queue.Equiv.refl _⟩
+
+theorem emitPrefix_eq {es : List Loc} {n : Nat} (h : n ≤ es.length) :
+    emitPrefix es n = .ok (es.take n) := by
+  induction n with
+  | zero => simp [emitPrefix]
+  | succ n ih =>
+    have hx : es[n]? = some (es[n]'(by omega)) := by grind
+    simp only [emitPrefix, ih (by omega), hx, List.take_add_one, Option.toList]
+
+theorem drainAll_abs {q : IQ} (hinv : q.Inv) :
+    q.drainAll = .ok (q.abs.drainAll.1, IQ.new) ∧ IQ.new.abs = q.abs.drainAll.2 := by
+  simp only [IQ.drainAll, emitPrefix_eq hinv, Queue.drainAll, IQ.abs, IQ.U]
+  exact ⟨rfl, rfl⟩
+
+theorem allCovered_abs {q : IQ} (hinv : q.Inv) : q.allCovered = q.abs.allCovered := by
+  have := IQ.U_length hinv
+  simp only [IQ.allCovered, Queue.allCovered, IQ.abs]
+  cases h : q.U with
+  | nil => rw [h] at this; simp at this; simp [← this]
+  | cons a l => rw [h] at this; simp at this; simp [← this]
+
+theorem isEmpty_abs (q : IQ) : q.isEmpty = q.abs.isEmpty := by
+  simp only [IQ.isEmpty, Queue.isEmpty, Queue.all, IQ.abs, ← q.entries_eq]
+
+/-! ### `max_by_key`: index of the last maximum -/
+
+theorem maxIdxGo_spec (xs : List Loc) (k bi : Nat) (b : Loc) :
+    (∀ x ∈ b :: xs, x.ble (maxIdxGo xs k (bi, b)).2 = true) ∧
+    (maxIdxGo xs k (bi, b) = (bi, b) ∨
+      (k ≤ (maxIdxGo xs k (bi, b)).1 ∧
+        xs[(maxIdxGo xs k (bi, b)).1 - k]? = some (maxIdxGo xs k (bi, b)).2)) ∧
+    (∀ j, xs[j]? = some (maxIdxGo xs k (bi, b)).2 → k + j ≤ (maxIdxGo xs k (bi, b)).1) := by
+  induction xs generalizing k bi b with
+  | nil => simp [maxIdxGo, Loc.ble_refl]
+  | cons x xs ih =>
+    simp only [maxIdxGo]
+    by_cases hbx : b.ble x = true
+    · rw [if_pos hbx]
+      obtain ⟨ha, hb, hc⟩ := ih (k + 1) k x
+      generalize maxIdxGo xs (k + 1) (k, x) = r at ha hb hc
+      refine ⟨?_, ?_, ?_⟩
+      · intro y hy
+        rcases List.mem_cons.mp hy with rfl | hy
+        · exact Loc.ble_trans hbx (ha x (List.mem_cons_self ..))
+        · exact ha y hy
+      · right
+        rcases hb with hb | ⟨hb1, hb2⟩
+        · subst hb; simp
+        · refine ⟨by omega, ?_⟩
+          have : r.1 - k = (r.1 - (k + 1)) + 1 := by omega
+          rw [this]; simpa using hb2
+      · intro j hj
+        cases j with
+        | zero =>
+          rcases hb with hb | ⟨hb1, _⟩
+          · subst hb; simp
+          · omega
+        | succ j => have := hc j (by simpa using hj); omega
+    · rw [if_neg hbx]
+      obtain ⟨ha, hb, hc⟩ := ih (k + 1) bi b
+      generalize maxIdxGo xs (k + 1) (bi, b) = r at ha hb hc
+      have hxb : x.ble b = true := (Loc.ble_total x b).resolve_right hbx
+      refine ⟨?_, ?_, ?_⟩
+      · intro y hy
+        rcases List.mem_cons.mp hy with rfl | hy
+        · exact ha y (List.mem_cons_self ..)
+        · rcases List.mem_cons.mp hy with rfl | hy
+          · exact Loc.ble_trans hxb (ha b (List.mem_cons_self ..))
+          · exact ha y (List.mem_cons_of_mem _ hy)
+      · rcases hb with hb | ⟨hb1, hb2⟩
+        · left; exact hb
+        · right
+          refine ⟨by omega, ?_⟩
+          have : r.1 - k = (r.1 - (k + 1)) + 1 := by omega
+          rw [this]; simpa using hb2
+      · intro j hj
+        cases j with
+        | zero =>
+          rcases hb with hb | ⟨hb1, _⟩
+          · subst hb
+            simp at hj; subst hj
+            exact absurd (Loc.ble_refl _) hbx
+          · omega
+        | succ j => have := hc j (by simpa using hj); omega
+
+theorem maxIdx_none {l : List Loc} : maxIdx l = none ↔ l = [] := by
+  cases l <;> simp [maxIdx]
+
+theorem maxIdx_spec {l : List Loc} {i : Nat} {m : Loc} (h : maxIdx l = some (i, m)) :
+    l[i]? = some m ∧ (∀ x ∈ l, x.ble m = true) ∧ (∀ j, l[j]? = some m → j ≤ i) := by
+  cases l with
+  | nil => simp [maxIdx] at h
+  | cons x xs =>
+    simp only [maxIdx, Option.some.injEq] at h
+    obtain ⟨ha, hb, hc⟩ := maxIdxGo_spec xs 1 0 x
+    rw [h] at ha hb hc
+    simp only at ha hb hc
+    refine ⟨?_, ha, ?_⟩
+    · rcases hb with hb | ⟨hb1, hb2⟩
+      · cases hb; rfl
+      · have : i = (i - 1) + 1 := by omega
+        rw [this]; simpa using hb2
+    · intro j hj
+      cases j with
+      | zero => omega
+      | succ j => have := hc j (by simpa using hj); omega
+
+theorem maxIdx_maxLoc {l : List Loc} {i : Nat} {m : Loc} (h : maxIdx l = some (i, m)) :
+    maxLoc l = some m := by
+  obtain ⟨h1, h2, _⟩ := maxIdx_spec h
+  have hm : m ∈ l := List.mem_of_getElem? h1
+  cases h' : maxLoc l with
+  | none => rw [maxLoc_none.mp h'] at hm; simp at hm
+  | some m' =>
+    have := Loc.ble_antisymm (h2 m' (maxLoc_mem h')) (maxLoc_ge h' m hm)
+    rw [this]
+
+theorem IQ.abs_all (q : IQ) : q.abs.all = q.entries := by
+  simp only [Queue.all, IQ.abs, ← q.entries_eq]
+
+theorem peek_abs (q : IQ) : q.peek = q.abs.peek := by
+  simp only [IQ.peek, Queue.peek, IQ.abs_all]
+  cases h : maxIdx q.entries with
+  | none => rw [maxIdx_none.mp h]; rfl
+  | some im => obtain ⟨i, m⟩ := im; rw [maxIdx_maxLoc h]; rfl
+
+theorem popCovered_abs {q : IQ} (hinv : q.Inv) :
+    ∃ q', q.popCovered = .ok (q.abs.popCovered.1, q') ∧ q'.Inv ∧
+      q'.entries.length ≤ q.entries.length ∧ q'.abs.Equiv q.abs.popCovered.2 := by
+  simp only [IQ.popCovered, Queue.popCovered, IQ.abs_all]
+  cases h : maxIdx q.entries with
+  | none =>
+    have : maxLoc q.entries = none := by rw [maxIdx_none.mp h]; rfl
+    simp only [this]
+    exact ⟨q, rfl, hinv, Nat.le_refl _, Queue.Equiv.refl _⟩
+  | some im =>
+    obtain ⟨i, m⟩ := im
+    obtain ⟨h1, h2, h3⟩ := maxIdx_spec h
+    simp only [maxIdx_maxLoc h]
+    by_cases hi : i < q.part
+    · simp only [hi, if_true]
+      obtain ⟨q', e1, e2, e3, e4, e5, e6, _⟩ := removeUncovered_spec hinv hi h1
+      have hnc : q.abs.cov.contains m = false := by
+        simp only [IQ.abs, List.contains_eq_mem, decide_eq_false_iff_not]
+        intro hm
+        obtain ⟨k, hk⟩ := List.getElem?_of_mem hm
+        have := h3 (k + q.part) ((IQ.getElem?_ge k).trans hk)
+        omega
+      simp only [e1, hnc, Bool.false_eq_true, if_false]
+      refine ⟨q', rfl, e4, by omega, ?_, e6⟩
+      have : q.U.Perm (m :: q'.U) := e5.symm.trans (List.perm_append_singleton _ _)
+      have := this.erase m
+      simp only [List.erase_cons_head] at this
+      exact this.symm
+    · simp only [hi, if_false]
+      obtain ⟨es, e1, e2, e3, e4, e5, _⟩ := covRemove_spec hinv (Nat.le_of_not_lt hi) h1
+      have hc : q.abs.cov.contains m = true := by
+        simp only [IQ.abs, List.contains_eq_mem, decide_eq_true_eq]
+        exact e5.subset (List.mem_cons_self ..)
+      simp only [e1, hc, if_true]
+      refine ⟨⟨es, q.part⟩, rfl, e3, by simp only; omega, ?_, ?_⟩
+      · simp only [IQ.abs, e4]; exact List.Perm.refl _
+      · have := e5.symm.erase m
+        simp only [List.erase_cons_head] at this
+        exact this.symm
+
+theorem pop_abs {q : IQ} (hinv : q.Inv) :
+    ∃ q', q.pop = .ok (q.abs.pop.1, q') ∧ q'.Inv ∧
+      q'.entries.length ≤ q.entries.length ∧ q'.abs.Equiv q.abs.pop.2 := by
+  obtain ⟨q', h1, h2, h3, h4⟩ := popCovered_abs hinv
+  exact ⟨q', by simp only [IQ.pop, h1]; rfl, h2, h3, h4⟩
+
+/-! ### the backward loop of `pop_duplicates` -/
+
+/-- the first `k` entries filtered by `p`, the rest untouched -/
+def fpre (p : Loc → Bool) (k : Nat) (l : List Loc) : List Loc := (l.take k).filter p ++ l.drop k
+
+theorem fpre_zero (p : Loc → Bool) (l : List Loc) : fpre p 0 l = l := by simp [fpre]
+
+theorem fpre_ge {p : Loc → Bool} {k : Nat} {l : List Loc} (h : l.length ≤ k) :
+    fpre p k l = l.filter p := by
+  simp [fpre, List.take_of_length_le h, List.drop_of_length_le h]
+
+theorem fpre_succ_none {p : Loc → Bool} {k : Nat} {l : List Loc} (h : l[k]? = none) :
+    fpre p (k + 1) l = fpre p k l := by
+  have : l.length ≤ k := by simpa using h
+  rw [fpre_ge this, fpre_ge (by omega)]
+
+theorem fpre_succ_keep {p : Loc → Bool} {k : Nat} {l : List Loc} {x : Loc} (h : l[k]? = some x)
+    (hp : p x = true) : fpre p (k + 1) l = fpre p k l := by
+  have hk : k < l.length := by grind
+  have hx : l[k] = x := by grind
+  simp only [fpre, List.take_add_one, h, Option.toList, List.filter_append, List.filter_cons, hp,
+    if_true, List.filter_nil, List.append_assoc, List.drop_eq_getElem_cons hk, hx]
+  rfl
+
+theorem fpre_succ_drop {p : Loc → Bool} {k : Nat} {l : List Loc} {x : Loc} (h : l[k]? = some x)
+    (hp : p x = false) : fpre p (k + 1) l = (l.take k).filter p ++ l.drop (k + 1) := by
+  simp [fpre, List.take_add_one, h, hp]
+
+theorem drop_removed {l1 l : List Loc} {x : Loc} {k : Nat} (hperm : (l1 ++ [x]).Perm l)
+    (ht : l1.take k = l.take k) (hx : l[k]? = some x) : (l1.drop k).Perm (l.drop (k + 1)) := by
+  have hk : k < l.length := by grind
+  have hxe : l[k] = x := by grind
+  rw [← List.take_append_drop k l1, ← List.take_append_drop k l, ht,
+    List.drop_eq_getElem_cons hk, hxe, List.append_assoc] at hperm
+  have := (List.perm_append_left_iff _).mp hperm
+  exact ((List.perm_append_singleton x _).symm.trans this).cons_inv
+
+theorem take_eq_of_prefix {l1 l : List Loc} {j : Nat} (h : ∀ k, k < j → l1[k]? = l[k]?) :
+    l1.take j = l.take j := by
+  apply List.ext_getElem?; intro k
+  by_cases hk : k < j
+  · simp [hk, h k hk]
+  · simp [List.getElem?_take, hk]
+
+theorem fpre_removed {p : Loc → Bool} {l1 l : List Loc} {x : Loc} {k : Nat}
+    (hperm : (l1 ++ [x]).Perm l) (ht : l1.take k = l.take k) (hx : l[k]? = some x)
+    (hp : p x = false) : (fpre p k l1).Perm (fpre p (k + 1) l) := by
+  rw [fpre_succ_drop hx hp, fpre, ht]
+  exact (List.perm_append_left_iff _).mpr (drop_removed hperm ht hx)
+
+theorem IQ.C_length (q : IQ) : q.C.length = q.entries.length - q.part := by simp [IQ.C]
+
+theorem popDupLoop_spec (loc : Loc) : ∀ (j : Nat) (q : IQ) (cnt : Nat), q.Inv →
+    j ≤ q.entries.length → cnt + j ≤ usizeMax →
+    ∃ q', IQ.popDupLoop loc j q cnt = .ok (q', cnt + (q.entries.take j).count loc) ∧ q'.Inv ∧
+      q'.entries.length ≤ q.entries.length ∧
+      q'.U.Perm (fpre (· != loc) j q.U) ∧ q'.C.Perm (fpre (· != loc) (j - q.part) q.C) := by
+  intro j
+  induction j with
+  | zero =>
+    intro q cnt hinv _ _
+    exact ⟨q, by simp [IQ.popDupLoop], hinv, Nat.le_refl _, by simp [fpre_zero], by simp [fpre_zero]⟩
+  | succ j ih =>
+    intro q cnt hinv hj hc
+    have hUl := IQ.U_length hinv
+    have hpart : q.part ≤ q.entries.length := hinv
+    have hx : q.entries[j]? = some (q.entries[j]'(by omega)) := by grind
+    generalize q.entries[j]'(by omega) = x at hx
+    have hcount : (q.entries.take (j + 1)).count loc
+        = (q.entries.take j).count loc + if x == loc then 1 else 0 := by
+      simp [List.take_add_one, hx, List.count_append, List.count_cons]
+    simp only [IQ.popDupLoop, hx]
+    by_cases hxl : (x == loc) = true
+    · have hxe : x = loc := by simpa using hxl
+      have hpx : (x != loc) = false := by simp [hxe]
+      simp only [hxl, if_true, checkedAdd_ok (show cnt + 1 ≤ usizeMax by omega)]
+      rw [hcount]; simp only [hxl, if_true]
+      by_cases hjp : j < q.part
+      · simp only [hjp, if_true]
+        obtain ⟨q1, e1, e2, e3, e4, e5, e6, e7⟩ := removeUncovered_spec hinv hjp hx
+        simp only [e1]
+        obtain ⟨q', f1, f2, f3, f4, f5⟩ := ih q1 (cnt + 1) e4 (by omega) (by omega)
+        have htE : q1.entries.take j = q.entries.take j := take_eq_of_prefix e7
+        have htU : q1.U.take j = q.U.take j := by
+          simp only [IQ.U, List.take_take, e2, show min j (q.part - 1) = j by omega,
+            show min j q.part = j by omega, htE]
+        refine ⟨q', ?_, f2, by omega, ?_, ?_⟩
+        · rw [f1, htE]; congr 2; omega
+        · exact f4.trans (fpre_removed e5 htU ((IQ.getElem?_lt hjp).symm.trans hx) hpx)
+        · rw [show j - q1.part = 0 by omega, fpre_zero] at f5
+          rw [show j + 1 - q.part = 0 by omega, fpre_zero]
+          exact f5.trans e6
+      · simp only [hjp, if_false]
+        obtain ⟨es, e1, e2, e3, e4, e5, e7⟩ := covRemove_spec hinv (Nat.le_of_not_lt hjp) hx
+        simp only [e1]
+        obtain ⟨q', f1, f2, f3, f4, f5⟩ := ih ⟨es, q.part⟩ (cnt + 1) e3 (by simp only; omega)
+          (by omega)
+        have htE : es.take j = q.entries.take j := take_eq_of_prefix e7
+        have hxC : q.C[j - q.part]? = some x := by
+          rw [← IQ.getElem?_ge, show j - q.part + q.part = j by omega]; exact hx
+        have htC : (IQ.C ⟨es, q.part⟩).take (j - q.part) = q.C.take (j - q.part) := by
+          apply take_eq_of_prefix
+          intro k hk
+          simp only [IQ.C, List.getElem?_drop]
+          exact e7 _ (by omega)
+        refine ⟨q', ?_, f2, by simp only at f3; omega, ?_, ?_⟩
+        · rw [f1]; simp only [htE]; congr 2; omega
+        · rw [e4] at f4
+          rw [fpre_succ_none (by simp [hUl]; omega)]
+          exact f4
+        · simp only at f5
+          rw [show j + 1 - q.part = (j - q.part) + 1 by omega]
+          exact f5.trans (fpre_removed ((List.perm_append_singleton _ _).trans e5) htC hxC hpx)
+    · have hpx : (x != loc) = true := by simpa using hxl
+      simp only [hxl, Bool.false_eq_true, if_false]
+      obtain ⟨q', f1, f2, f3, f4, f5⟩ := ih q cnt hinv (by omega) (by omega)
+      refine ⟨q', ?_, f2, f3, ?_, ?_⟩
+      · rw [f1, hcount]; simp [hxl]
+      · by_cases hjp : j < q.part
+        · rw [fpre_succ_keep ((IQ.getElem?_lt hjp).symm.trans hx) hpx]; exact f4
+        · rw [fpre_succ_none (by simp [hUl]; omega)]; exact f4
+      · by_cases hjp : j < q.part
+        · rw [show j + 1 - q.part = 0 by omega]
+          rw [show j - q.part = 0 by omega] at f5
+          exact f5
+        · have hxC : q.C[j - q.part]? = some x := by
+            rw [← IQ.getElem?_ge, show j - q.part + q.part = j by omega]; exact hx
+          rw [show j + 1 - q.part = (j - q.part) + 1 by omega, fpre_succ_keep hxC hpx]
+          exact f5
+
+theorem popDuplicates_abs {q : IQ} (hinv : q.Inv) (hb : q.entries.length ≤ usizeMax) :
+    ∃ q', q.popDuplicates = .ok (q.abs.popDuplicates.1, q') ∧ q'.Inv ∧
+      q'.entries.length ≤ q.entries.length ∧ q'.abs.Equiv q.abs.popDuplicates.2 := by
+  simp only [IQ.popDuplicates, Queue.popDuplicates, IQ.abs_all]
+  cases h : maxIdx q.entries with
+  | none =>
+    have : maxLoc q.entries = none := by rw [maxIdx_none.mp h]; rfl
+    simp only [this]
+    exact ⟨q, rfl, hinv, Nat.le_refl _, Queue.Equiv.refl _⟩
+  | some im =>
+    obtain ⟨i, m⟩ := im
+    simp only [maxIdx_maxLoc h]
+    obtain ⟨q', f1, f2, f3, f4, f5⟩ := popDupLoop_spec m q.entries.length q 0 hinv (Nat.le_refl _)
+      (by omega)
+    simp only [f1, List.take_length, Nat.zero_add]
+    refine ⟨q', rfl, f2, f3, ?_, ?_⟩
+    · rw [fpre_ge (by rw [IQ.U_length hinv]; exact hinv)] at f4; exact f4
+    · rw [fpre_ge (Nat.le_of_eq (IQ.C_length q))] at f5; exact f5
+
+/-! ### the two loops of `drain_above` -/
+
+theorem IQ.mem_U_getElem? {q : IQ} (hinv : q.Inv) {x : Loc} (hx : x ∈ q.U) :
+    ∃ k, k < q.part ∧ q.entries[k]? = some x := by
+  obtain ⟨k, hk⟩ := List.getElem?_of_mem hx
+  have : k < q.part := by
+    have : k < q.U.length := by grind
+    rwa [IQ.U_length hinv] at this
+  exact ⟨k, this, (IQ.getElem?_lt this).trans hk⟩
+
+theorem IQ.mem_C_getElem? {q : IQ} {x : Loc} (hx : x ∈ q.C) :
+    ∃ k, q.part ≤ k ∧ q.entries[k]? = some x := by
+  obtain ⟨k, hk⟩ := List.getElem?_of_mem hx
+  exact ⟨k + q.part, by omega, (IQ.getElem?_ge k).trans hk⟩
+
+theorem drainLoopU_spec (thr : Nat) : ∀ (fuel i : Nat) (q : IQ) (em : List Loc), q.Inv →
+    i ≤ q.part → q.part - i ≤ fuel → q.entries.length ≤ usizeMax →
+    (∀ k x, k < i → q.entries[k]? = some x → x.mc ≤ thr) →
+    ∃ em' q', IQ.drainLoopU thr fuel i q em = .ok (em ++ em', q') ∧ q'.Inv ∧
+      q'.entries.length ≤ q.entries.length ∧ (em' ++ q'.U).Perm q.U ∧
+      (∀ x ∈ em', x.mc > thr) ∧ (∀ x ∈ q'.U, x.mc ≤ thr) ∧ q'.C.Perm q.C := by
+  intro fuel
+  induction fuel with
+  | zero =>
+    intro i q em hinv hi hf _ hpre
+    have : ¬ i < q.part := by omega
+    refine ⟨[], q, by simp [IQ.drainLoopU, this], hinv, Nat.le_refl _, by simp, by simp, ?_,
+      List.Perm.refl _⟩
+    intro x hx
+    obtain ⟨k, hk1, hk2⟩ := IQ.mem_U_getElem? hinv hx
+    exact hpre k x (by omega) hk2
+  | succ fuel ih =>
+    intro i q em hinv hi hf hb hpre
+    have hpart : q.part ≤ q.entries.length := hinv
+    by_cases hip : i < q.part
+    · have hx : q.entries[i]? = some (q.entries[i]'(by omega)) := by grind
+      generalize q.entries[i]'(by omega) = x at hx
+      simp only [IQ.drainLoopU, hip, if_true, hx]
+      by_cases hxt : x.mc > thr
+      · simp only [hxt, if_true]
+        obtain ⟨q1, e1, e2, e3, e4, e5, e6, e7⟩ := removeUncovered_spec hinv hip hx
+        simp only [e1]
+        obtain ⟨em1, q', f1, f2, f3, f4, f5, f6, f7⟩ := ih i q1 (em ++ [x]) e4 (by omega) (by omega)
+          (by omega) (fun k y hk hy => hpre k y hk ((e7 k hk).symm.trans hy))
+        refine ⟨x :: em1, q', by rw [f1]; simp, f2, by omega, ?_, ?_, f6, f7.trans e6⟩
+        · exact ((f4.cons x).trans (List.perm_append_singleton _ _).symm).trans e5
+        · intro y hy
+          rcases List.mem_cons.mp hy with rfl | hy
+          · exact hxt
+          · exact f5 y hy
+      · simp only [hxt, if_false, checkedAdd_ok (show i + 1 ≤ usizeMax by omega)]
+        obtain ⟨em1, q', f1, f2, f3, f4, f5, f6, f7⟩ := ih (i + 1) q em hinv (by omega) (by omega) hb
+          (fun k y hk hy => by
+            by_cases hki : k < i
+            · exact hpre k y hki hy
+            · have : k = i := by omega
+              subst this; rw [hx] at hy; cases hy; omega)
+        exact ⟨em1, q', f1, f2, f3, f4, f5, f6, f7⟩
+    · refine ⟨[], q, by simp [IQ.drainLoopU, hip], hinv, Nat.le_refl _, by simp, by simp, ?_,
+        List.Perm.refl _⟩
+      intro x hx
+      obtain ⟨k, hk1, hk2⟩ := IQ.mem_U_getElem? hinv hx
+      exact hpre k x (by omega) hk2
+
+theorem drainLoopC_spec (thr : Nat) : ∀ (fuel i : Nat) (q : IQ), q.Inv →
+    q.part ≤ i → i ≤ q.entries.length → q.entries.length - i ≤ fuel →
+    q.entries.length ≤ usizeMax →
+    (∀ k x, q.part ≤ k → k < i → q.entries[k]? = some x → x.mc ≤ thr) →
+    ∃ q' rm, IQ.drainLoopC thr fuel i q = .ok q' ∧ q'.Inv ∧
+      q'.entries.length ≤ q.entries.length ∧ q'.U = q.U ∧ (rm ++ q'.C).Perm q.C ∧
+      (∀ x ∈ rm, x.mc > thr) ∧ (∀ x ∈ q'.C, x.mc ≤ thr) := by
+  intro fuel
+  induction fuel with
+  | zero =>
+    intro i q hinv hi hil hf _ hpre
+    have : ¬ i < q.entries.length := by omega
+    refine ⟨q, [], by simp [IQ.drainLoopC, this], hinv, Nat.le_refl _, rfl, by simp, by simp, ?_⟩
+    intro x hx
+    obtain ⟨k, hk1, hk2⟩ := IQ.mem_C_getElem? hx
+    exact hpre k x hk1 (by have : k < q.entries.length := by grind
+                           omega) hk2
+  | succ fuel ih =>
+    intro i q hinv hi hil hf hb hpre
+    by_cases hip : i < q.entries.length
+    · have hx : q.entries[i]? = some (q.entries[i]'(by omega)) := by grind
+      generalize q.entries[i]'(by omega) = x at hx
+      simp only [IQ.drainLoopC, hip, if_true, hx]
+      by_cases hxt : x.mc > thr
+      · simp only [hxt, if_true]
+        obtain ⟨es, e1, e2, e3, e4, e5, e7⟩ := covRemove_spec hinv hi hx
+        simp only [e1]
+        obtain ⟨q', rm, f1, f2, f3, f4, f5, f6, f7⟩ := ih i ⟨es, q.part⟩ e3 hi
+          (by simp only; omega) (by simp only; omega) (by simp only; omega)
+          (fun k y hk1 hk2 hy => hpre k y hk1 hk2 ((e7 k hk2).symm.trans hy))
+        refine ⟨q', x :: rm, f1, f2, by simp only at f3; omega, f4.trans e4, ?_, ?_, f7⟩
+        · exact (f5.cons x).trans e5
+        · intro y hy
+          rcases List.mem_cons.mp hy with rfl | hy
+          · exact hxt
+          · exact f6 y hy
+      · simp only [hxt, if_false, checkedAdd_ok (show i + 1 ≤ usizeMax by omega)]
+        exact ih (i + 1) q hinv (by omega) (by omega) (by omega) hb
+          (fun k y hk1 hk2 hy => by
+            by_cases hki : k < i
+            · exact hpre k y hk1 hki hy
+            · have : k = i := by omega
+              subst this; rw [hx] at hy; cases hy; omega)
+    · refine ⟨q, [], by simp [IQ.drainLoopC, hip], hinv, Nat.le_refl _, rfl, by simp, by simp, ?_⟩
+      intro x hx
+      obtain ⟨k, hk1, hk2⟩ := IQ.mem_C_getElem? hx
+      exact hpre k x hk1 (by have : k < q.entries.length := by grind
+                             omega) hk2
+
+theorem split_perm {p : Loc → Bool} {a b l : List Loc} (h : (a ++ b).Perm l)
+    (ha : ∀ x ∈ a, p x = true) (hb : ∀ x ∈ b, p x = false) :
+    a.Perm (l.filter p) ∧ b.Perm (l.filter (fun x => !p x)) := by
+  constructor
+  · have := h.filter p
+    rw [List.filter_append, List.filter_eq_self.mpr ha,
+      List.filter_eq_nil_iff.mpr (by intro x hx; simp [hb x hx]), List.append_nil] at this
+    exact this
+  · have := h.filter (fun x => !p x)
+    rw [List.filter_append, List.filter_eq_self (l := b) |>.mpr (by intro x hx; simp [hb x hx]),
+      List.filter_eq_nil_iff (l := a) |>.mpr (by intro x hx; simp [ha x hx]), List.nil_append] at this
+    exact this
+
+theorem drainAbove_abs {q : IQ} (hinv : q.Inv) (hb : q.entries.length ≤ usizeMax) (thr : Nat) :
+    ∃ em q', q.drainAbove thr = .ok (em, q') ∧ q'.Inv ∧ q'.entries.length ≤ q.entries.length ∧
+      em.Perm (q.abs.drainAbove thr).1 ∧ q'.abs.Equiv (q.abs.drainAbove thr).2 := by
+  obtain ⟨em, q1, e1, e2, e3, e4, e5, e6, e7⟩ := drainLoopU_spec thr q.entries.length 0 q [] hinv
+    (Nat.zero_le _) (by have : q.part ≤ q.entries.length := hinv
+                        omega) hb (fun k x hk _ => absurd hk (Nat.not_lt_zero _))
+  obtain ⟨q2, rm, f1, f2, f3, f4, f5, f6, f7⟩ := drainLoopC_spec thr q1.entries.length q1.part q1 e2
+    (Nat.le_refl _) e2 (by omega) (by omega) (fun k x h1 h2 _ => by omega)
+  simp only [List.nil_append] at e1
+  refine ⟨em, q2, by simp only [IQ.drainAbove, e1, f1], f2, by omega, ?_, ?_, ?_⟩
+  · exact (split_perm (p := fun x => decide (x.mc > thr)) e4 (by simpa using e5)
+      (by simpa using e6)).1
+  · simp only [IQ.abs, Queue.drainAbove, f4]
+    exact (split_perm (p := fun x => decide (x.mc > thr)) e4 (by simpa using e5)
+      (by simpa using e6)).2
+  · simp only [IQ.abs, Queue.drainAbove]
+    have := (split_perm (p := fun x => decide (x.mc > thr)) f5 (by simpa using f6)
+      (by simpa using f7)).2
+    exact this.trans (e7.filter _)
+
+/-! ### the two-list operations only depend on the two multisets (given one entry per segment
+where "first entry of a segment" matters) -/
+
+theorem seg_inj {l : List Loc} (hn : (segs l).Nodup) {a b : Loc} (ha : a ∈ l) (hb : b ∈ l)
+    (h : a.seg = b.seg) : a = b := by
+  induction l with
+  | nil => simp at ha
+  | cons y ys ih =>
+    rw [segs_cons, List.nodup_cons] at hn
+    rcases List.mem_cons.mp ha with rfl | ha' <;> rcases List.mem_cons.mp hb with rfl | hb'
+    · rfl
+    · exact absurd (List.mem_map.mpr ⟨b, hb', h.symm⟩) hn.1
+    · exact absurd (List.mem_map.mpr ⟨a, ha', h⟩) hn.1
+    · exact ih hn.2 ha' hb'
+
+theorem find_perm {s : Nat} {l1 l2 : List Loc} (h : l1.Perm l2) (hn : (segs l1).Nodup) :
+    l1.find? (sameSeg s) = l2.find? (sameSeg s) := by
+  cases h1 : l1.find? (sameSeg s) with
+  | none =>
+    have := find_none_iff.mp h1
+    rw [eq_comm, find_none_iff]
+    intro hm; exact this ((h.map _).mem_iff.mpr hm)
+  | some e =>
+    obtain ⟨hes, hem⟩ := find_some_seg h1
+    cases h2 : l2.find? (sameSeg s) with
+    | none =>
+      have := find_none_iff.mp h2
+      exact absurd (List.mem_map.mpr ⟨e, h.mem_iff.mp hem, hes⟩) this
+    | some e' =>
+      obtain ⟨hes', hem'⟩ := find_some_seg h2
+      rw [seg_inj hn hem (h.mem_iff.mpr hem') (hes.trans hes'.symm)]
+
+theorem eraseFirst_eq_filter {s : Nat} {l : List Loc} (hn : (segs l).Nodup) :
+    eraseFirst (sameSeg s) l = l.filter (fun x => !sameSeg s x) := by
+  induction l with
+  | nil => rfl
+  | cons y ys ih =>
+    rw [segs_cons, List.nodup_cons] at hn
+    by_cases hy : sameSeg s y = true
+    · simp only [eraseFirst, hy, if_true, List.filter_cons, Bool.not_true, Bool.false_eq_true,
+        if_false]
+      rw [eq_comm, List.filter_eq_self]
+      intro x hx
+      have : x.seg ≠ s := by
+        intro hxs
+        have hys : y.seg = s := by simpa [sameSeg] using hy
+        exact hn.1 (List.mem_map.mpr ⟨x, hx, hxs.trans hys.symm⟩)
+      simpa [sameSeg] using this
+    · simp only [eraseFirst, hy, Bool.false_eq_true, if_false, List.filter_cons, Bool.not_false,
+        if_true, ih hn.2]
+
+theorem updFirst_eq_map {s : Nat} (f : Loc → Loc) {l : List Loc} (hn : (segs l).Nodup) :
+    updFirst (sameSeg s) f l = l.map (fun x => if sameSeg s x then f x else x) := by
+  induction l with
+  | nil => rfl
+  | cons y ys ih =>
+    rw [segs_cons, List.nodup_cons] at hn
+    by_cases hy : sameSeg s y = true
+    · simp only [updFirst, hy, if_true, List.map_cons]
+      congr 1
+      rw [eq_comm]
+      conv => rhs; rw [← List.map_id ys]
+      apply List.map_congr_left
+      intro x hx
+      have : x.seg ≠ s := by
+        intro hxs
+        have hys : y.seg = s := by simpa [sameSeg] using hy
+        exact hn.1 (List.mem_map.mpr ⟨x, hx, hxs.trans hys.symm⟩)
+      have : sameSeg s x = false := by simpa [sameSeg] using this
+      simp [this]
+    · simp only [updFirst, hy, Bool.false_eq_true, if_false, List.map_cons, ih hn.2]
+
+theorem nodup_segs_perm {l1 l2 : List Loc} (h : l1.Perm l2) (hn : (segs l1).Nodup) :
+    (segs l2).Nodup := (h.map _).nodup_iff.mp hn
+
+theorem eraseFirst_perm_congr {s : Nat} {l1 l2 : List Loc} (h : l1.Perm l2)
+    (hn : (segs l1).Nodup) : (eraseFirst (sameSeg s) l1).Perm (eraseFirst (sameSeg s) l2) := by
+  rw [eraseFirst_eq_filter hn, eraseFirst_eq_filter (nodup_segs_perm h hn)]
+  exact h.filter _
+
+theorem updFirst_perm_congr {s : Nat} (f : Loc → Loc) {l1 l2 : List Loc} (h : l1.Perm l2)
+    (hn : (segs l1).Nodup) : (updFirst (sameSeg s) f l1).Perm (updFirst (sameSeg s) f l2) := by
+  rw [updFirst_eq_map f hn, updFirst_eq_map f (nodup_segs_perm h hn)]
+  exact h.map _
+
+theorem maxLoc_perm {l1 l2 : List Loc} (h : l1.Perm l2) : maxLoc l1 = maxLoc l2 := by
+  cases h1 : maxLoc l1 with
+  | none =>
+    have := maxLoc_none.mp h1; subst this
+    have := h.symm.eq_nil; subst this; rfl
+  | some m1 =>
+    cases h2 : maxLoc l2 with
+    | none =>
+      have := maxLoc_none.mp h2; subst this
+      have := h.eq_nil; subst this
+      simp [maxLoc] at h1
+    | some m2 =>
+      have a1 := maxLoc_mem h1
+      have a2 := maxLoc_mem h2
+      rw [Loc.ble_antisymm (maxLoc_ge h2 m1 (h.mem_iff.mp a1)) (maxLoc_ge h1 m2 (h.mem_iff.mpr a2))]
+
+theorem Queue.Equiv.all {a b : Queue} (h : a.Equiv b) : a.all.Perm b.all := h.1.append h.2
+
+theorem pushCovered_equiv {a b : Queue} (h : a.Equiv b) (hu : (segs a.unc).Nodup)
+    (hc : (segs a.cov).Nodup) (loc : Loc) (c : Bool) :
+    (a.pushCovered loc c).Equiv (b.pushCovered loc c) := by
+  have e1 := find_perm (s := loc.seg) h.1 hu
+  have e2 := find_perm (s := loc.seg) h.2 hc
+  have p1 := eraseFirst_perm_congr (s := loc.seg) h.1 hu
+  have p2 := eraseFirst_perm_congr (s := loc.seg) h.2 hc
+  have p3 := updFirst_perm_congr (s := loc.seg) (fun x => ⟨loc.mc, x.seg⟩) h.1 hu
+  have p4 := updFirst_perm_congr (s := loc.seg) (fun x => ⟨loc.mc, x.seg⟩) h.2 hc
+  unfold Queue.pushCovered
+  rw [← e1, ← e2]
+  cases a.unc.find? (sameSeg loc.seg) with
+  | some e =>
+    simp only
+    split
+    · split
+      · exact ⟨p1, h.2.append_right _⟩
+      · exact ⟨p3, h.2⟩
+    · split
+      · split
+        · exact ⟨p1, h.2.append_right _⟩
+        · exact h
+      · exact h
+  | none =>
+    simp only
+    cases a.cov.find? (sameSeg loc.seg) with
+    | some e =>
+      simp only
+      split
+      · split
+        · exact ⟨h.1, p4⟩
+        · exact ⟨h.1.append_right _, p2⟩
+      · exact h
+    | none =>
+      simp only
+      split
+      · exact ⟨h.1, h.2.append_right _⟩
+      · exact ⟨h.1.append_right _, h.2⟩
+
+theorem coverUpTo_equiv {a b : Queue} (h : a.Equiv b) (hu : (segs a.unc).Nodup)
+    (s cmc lmc : Nat) : (a.coverUpTo s cmc lmc).Equiv (b.coverUpTo s cmc lmc) := by
+  have e1 := find_perm (s := s) h.1 hu
+  have p1 := eraseFirst_perm_congr (s := s) h.1 hu
+  have p3 := updFirst_perm_congr (s := s) (fun x => ⟨cmc + 1, x.seg⟩) h.1 hu
+  unfold Queue.coverUpTo
+  rw [← e1]
+  cases a.unc.find? (sameSeg s) with
+  | none => exact h
+  | some e =>
+    simp only
+    split
+    · exact ⟨p1, h.2.append_right _⟩
+    · split
+      · exact ⟨p3, h.2⟩
+      · exact h
+
+theorem popCovered_equiv {a b : Queue} (h : a.Equiv b) :
+    a.popCovered.1 = b.popCovered.1 ∧ a.popCovered.2.Equiv b.popCovered.2 := by
+  have hm := maxLoc_perm h.all
+  unfold Queue.popCovered
+  rw [← hm]
+  cases maxLoc a.all with
+  | none => exact ⟨rfl, h⟩
+  | some m =>
+    have : a.cov.contains m = b.cov.contains m := by
+      simp only [List.contains_eq_mem, h.2.mem_iff]
+    simp only
+    rw [← this]
+    split
+    · exact ⟨rfl, h.1, h.2.erase m⟩
+    · exact ⟨rfl, h.1.erase m, h.2⟩
+
+theorem pop_equiv {a b : Queue} (h : a.Equiv b) :
+    a.pop.1 = b.pop.1 ∧ a.pop.2.Equiv b.pop.2 := by
+  obtain ⟨h1, h2⟩ := popCovered_equiv h
+  simp only [Queue.pop]
+  exact ⟨by rw [h1], h2⟩
+
+theorem peek_equiv {a b : Queue} (h : a.Equiv b) : a.peek = b.peek := maxLoc_perm h.all
+
+theorem popDuplicates_equiv {a b : Queue} (h : a.Equiv b) :
+    a.popDuplicates.1 = b.popDuplicates.1 ∧ a.popDuplicates.2.Equiv b.popDuplicates.2 := by
+  have hm := maxLoc_perm h.all
+  unfold Queue.popDuplicates
+  rw [← hm]
+  cases maxLoc a.all with
+  | none => exact ⟨rfl, h⟩
+  | some m =>
+    simp only
+    exact ⟨by rw [h.all.count_eq m], h.1.filter _, h.2.filter _⟩
+
+theorem drainAbove_equiv {a b : Queue} (h : a.Equiv b) (thr : Nat) :
+    (a.drainAbove thr).1.Perm (b.drainAbove thr).1 ∧
+    (a.drainAbove thr).2.Equiv (b.drainAbove thr).2 :=
+  ⟨h.1.filter _, h.1.filter _, h.2.filter _⟩
+
+theorem drainAll_equiv {a b : Queue} (h : a.Equiv b) :
+    a.drainAll.1.Perm b.drainAll.1 ∧ a.drainAll.2 = b.drainAll.2 := ⟨h.1, rfl⟩
+
+theorem allCovered_equiv {a b : Queue} (h : a.Equiv b) : a.allCovered = b.allCovered := by
+  simp only [Queue.allCovered, h.1.isEmpty_eq]
+
+theorem isEmpty_equiv {a b : Queue} (h : a.Equiv b) : a.isEmpty = b.isEmpty := by
+  simp only [Queue.isEmpty, h.all.isEmpty_eq]
+
 end AranyaV.Queue
